@@ -217,4 +217,170 @@ theorem views_agree_after_phase_9_step (a b : St) (accsA accsB : List (Nat × Na
       · rw [hhonB x (h3ba x hx hxa') hyb, ← hyb, targets9_self]
       · rw [hpub]; exact targets9_public _ x b.id a.id (fun h => hyb h.symm) (fun h => hya h.symm)
 
+/-! ## phase 11 -/
+
+/-- most general form of `dq_agree_generic` -/
+theorem dq_agree_generic' {X Y : Type} (a b : St) (LA : List X) (LB : List Y)
+    (TA : X → List Nat) (TB : Y → List Nat)
+    (hn : a.n = b.n) (hia : ∀ k, k ∈ a.ia ↔ k ∈ b.ia)
+    (hdqa : ∀ k ∈ a.dq, 1 ≤ k ∧ k ≤ a.n ∧ k ∉ a.ia) (hdqb : ∀ k ∈ b.dq, 1 ≤ k ∧ k ≤ b.n ∧ k ∉ b.ia)
+    (HA : ∀ x ∈ LA, ∀ k ∈ TA x, k ∈ b.dq ∨ ∃ y ∈ LB, k ∈ TB y)
+    (HB : ∀ y ∈ LB, ∀ k ∈ TB y, k ∈ a.dq ∨ ∃ x ∈ LA, k ∈ TA x)
+    (hprivA : ∀ k ∈ a.dq, k ∈ b.dq ∨ ∃ y ∈ LB, k ∈ TB y)
+    (hprivB : ∀ k ∈ b.dq, k ∈ a.dq ∨ ∃ x ∈ LA, k ∈ TA x) :
+    ∀ k, k ∈ ((LA.flatMap TA).foldl markDQ a).dq ↔ k ∈ ((LB.flatMap TB).foldl markDQ b).dq := by
+  have key : ∀ {X Y : Type} (a b : St) (LA : List X) (LB : List Y) (TA : X → List Nat) (TB : Y → List Nat),
+      a.n = b.n → (∀ k, k ∈ a.ia ↔ k ∈ b.ia) →
+      (∀ k ∈ a.dq, 1 ≤ k ∧ k ≤ a.n ∧ k ∉ a.ia) →
+      (∀ x ∈ LA, ∀ k ∈ TA x, k ∈ b.dq ∨ ∃ y ∈ LB, k ∈ TB y) →
+      (∀ k ∈ a.dq, k ∈ b.dq ∨ ∃ y ∈ LB, k ∈ TB y) →
+      ∀ k, k ∈ ((LA.flatMap TA).foldl markDQ a).dq → k ∈ ((LB.flatMap TB).foldl markDQ b).dq := by
+    intro X Y a b LA LB TA TB hn hia hdqa HA hprivA k
+    rw [markDQ_fold_iff, markDQ_fold_iff]
+    have opB : ∀ k, 1 ≤ k → k ≤ a.n → k ∉ a.ia → k ∉ b.dq → isOperating b k = true := by
+      intro k h1 h2 h3 h4
+      have : k ∉ b.ia := fun h => h3 ((hia k).2 h)
+      simp [isOperating, ← hn, h1, h2, this, h4]
+    rintro (hk | ⟨hk, hop⟩)
+    · rcases hprivA k hk with h | ⟨y, hy, hky⟩
+      · exact Or.inl h
+      · obtain ⟨r1, r2, r3⟩ := hdqa k hk
+        by_cases hkb : k ∈ b.dq
+        · exact Or.inl hkb
+        · exact Or.inr ⟨List.mem_flatMap.2 ⟨y, hy, hky⟩, opB k r1 r2 r3 hkb⟩
+    · obtain ⟨x, hx, hkx⟩ := List.mem_flatMap.1 hk
+      have hrange : 1 ≤ k ∧ k ≤ a.n ∧ k ∉ a.ia := by
+        simp only [isOperating, Bool.and_eq_true, decide_eq_true_eq, Bool.not_eq_true',
+          List.contains_eq_mem, decide_eq_false_iff_not] at hop
+        exact ⟨hop.1.1.1, hop.1.1.2, hop.1.2⟩
+      rcases HA x hx k hkx with h | ⟨y, hy, hky⟩
+      · exact Or.inl h
+      · by_cases hkb : k ∈ b.dq
+        · exact Or.inl hkb
+        · exact Or.inr ⟨List.mem_flatMap.2 ⟨y, hy, hky⟩, opB k hrange.1 hrange.2.1 hrange.2.2 hkb⟩
+  intro k
+  exact ⟨key a b LA LB TA TB hn hia hdqa HA hprivA k,
+    key b a LB LA TB TA hn.symm (fun k => (hia k).symm) hdqb HB hprivB k⟩
+
+/-- members disqualified for one revealed key -/
+def targets11 (P : Pub11) (self : Nat) (e : Nat × Nat × Nat) : List Nat :=
+  match recoverDecision P self e with
+  | .dq => [e.1]
+  | _ => []
+
+theorem pub11_markDQ (snap s : St) (hf : s.fix11 = true) (j : Nat) (self : Nat) (e : Nat × Nat × Nat) :
+    recoverDecision (pub11 snap (markDQ s j)) self e = recoverDecision (pub11 snap s) self e := by
+  have h : ∀ (s' : St), s'.fix11 = true → s'.fixKey = s.fixKey → s'.fixAbort = s.fixAbort →
+      s'.recvS = s.recvS → s'.evEph = s.evEph → s'.evShares = s.evShares → s'.recvC = s.recvC →
+      s'.q = s.q → recoverDecision (pub11 snap s') self e = recoverDecision (pub11 snap s) self e := by
+    intro s' h1 h2 h3 h4 h5 h6 h7 h8
+    simp [recoverDecision, pub11, h1, hf, h2, h3, h4, h5, h6, h7, h8]
+  unfold markDQ
+  split
+  · exact h _ hf rfl rfl rfl rfl rfl rfl rfl
+  · rfl
+
+theorem recoverDecision_ne_fatal (P : Pub11) (hP : P.fixAbort = true) (self : Nat)
+    (e : Nat × Nat × Nat) : recoverDecision P self e ≠ .fatal := by
+  intro h
+  unfold recoverDecision at h
+  repeat' (split at h)
+  all_goals simp_all
+
+theorem targets11_markDQ (snap s : St) (hf : s.fix11 = true) (j : Nat) :
+    targets11 (pub11 snap (markDQ s j)) (markDQ s j).id = targets11 (pub11 snap s) s.id := by
+  have hid : (markDQ s j).id = s.id := by unfold markDQ; split <;> rfl
+  funext e
+  unfold targets11
+  rw [hid, pub11_markDQ snap s hf]
+
+theorem recover11_fold (snap : St) (l : List (Nat × Nat × Nat)) (s : St) (rev : Revealed)
+    (hok : s.status = .ok) (hfa : s.fixAbort = true) (hf : s.fix11 = true) :
+    core (l.foldl (recover11Step snap) (s, rev)).1 =
+      core ((l.flatMap (targets11 (pub11 snap s) s.id)).foldl markDQ s) ∧
+    (l.foldl (recover11Step snap) (s, rev)).1.status = .ok := by
+  induction l generalizing s rev with
+  | nil => exact ⟨rfl, hok⟩
+  | cons e rest ih =>
+    simp only [List.foldl_cons, List.flatMap_cons, List.foldl_append]
+    have hnf := recoverDecision_ne_fatal (pub11 snap s) (by simp [pub11, hfa]) s.id e
+    cases hd : recoverDecision (pub11 snap s) s.id e with
+    | skip =>
+      have hs : recover11Step snap (s, rev) e = (s, rev) := by simp [recover11Step, hok, hd]
+      have ht : targets11 (pub11 snap s) s.id e = [] := by simp [targets11, hd]
+      rw [hs]
+      simp only [ht, List.foldl_nil]
+      exact ih s rev hok hfa hf
+    | add sv =>
+      have hs : recover11Step snap (s, rev) e = (s, addShare rev e.2.1 e.1 sv) := by
+        simp [recover11Step, hok, hd]
+      have ht : targets11 (pub11 snap s) s.id e = [] := by simp [targets11, hd]
+      rw [hs]
+      simp only [ht, List.foldl_nil]
+      exact ih s _ hok hfa hf
+    | dq =>
+      have hs : recover11Step snap (s, rev) e = (markDQ s e.1, rev) := by simp [recover11Step, hok, hd]
+      have ht : targets11 (pub11 snap s) s.id e = [e.1] := by simp [targets11, hd]
+      rw [hs]
+      simp only [ht, List.foldl_cons, List.foldl_nil]
+      have m1 : (markDQ s e.1).status = .ok := by unfold markDQ; split <;> simp [hok]
+      have m2 : (markDQ s e.1).fixAbort = true := by unfold markDQ; split <;> simp [hfa]
+      have m3 : (markDQ s e.1).fix11 = true := by unfold markDQ; split <;> simp [hf]
+      have := ih (markDQ s e.1) rev m1 m2 m3
+      rw [targets11_markDQ snap s hf] at this
+      exact this
+    | fatal => exact absurd hd hnf
+
+/-- DQ set after the phase 11 recovery (repaired code): the old one plus the operating revealers
+    convicted by decisions computed on the state BEFORE the recovery (order independent). -/
+theorem recover11_dq_iff (snap : St) (l : List (Nat × Nat × Nat)) (s : St) (rev : Revealed)
+    (hok : s.status = .ok) (hfa : s.fixAbort = true) (hf : s.fix11 = true) (k : Nat) :
+    k ∈ (l.foldl (recover11Step snap) (s, rev)).1.dq ↔
+      k ∈ s.dq ∨ (k ∈ l.flatMap (targets11 (pub11 snap s) s.id) ∧ isOperating s k = true) := by
+  have h := (recover11_fold snap l s rev hok hfa hf).1
+  simp only [core, Prod.mk.injEq] at h
+  rw [h.2.2.2, markDQ_fold_iff]
+
+/-- validation of the reveal messages (repaired code) is a `markDQ` fold over the senders of the
+    messages that are invalid against the state BEFORE the validation -/
+theorem validate11_dq_iff (s : St) (msgs : List (Nat × List (Nat × Nat))) (hf : s.fix11 = true) (k : Nat) :
+    k ∈ (validate11 s msgs).dq ↔
+      k ∈ s.dq ∨ (k ∈ ((dedup (·.1) msgs).filter (fun p => !isValidReveal s p.2)).map (·.1) ∧
+        isOperating s k = true) := by
+  unfold validate11
+  rw [if_pos hf, markDQ_fold_iff]
+
+/-- **Phase 11 agreement step (DQ sets), validation + recovery.**  Members `a`, `b` with equal views
+    (as after phase 9 and the inactivity marking of phase 11) and DQ lists within the group, such
+    that every revealer convicted by one of them is convicted by the other or already disqualified
+    by it (premises `HA`, `HB`: for third-party revealers this is `recoverDecision` being a
+    function of public data, for reveals naming `a` or `b` themselves the revealer's message is
+    invalid for the other), end phase 11 with the same DQ set. -/
+theorem views_agree_after_phase_11_step (a b snapA snapB : St) (EA EB : List (Nat × Nat × Nat))
+    (revA revB : Revealed)
+    (hoka : a.status = .ok) (hokb : b.status = .ok) (hfa : a.fixAbort = true) (hfb : b.fixAbort = true)
+    (hxa : a.fix11 = true) (hxb : b.fix11 = true)
+    (hn : a.n = b.n) (hia : ∀ k, k ∈ a.ia ↔ k ∈ b.ia) (hdq : ∀ k, k ∈ a.dq ↔ k ∈ b.dq)
+    (hdqa : ∀ k ∈ a.dq, 1 ≤ k ∧ k ≤ a.n ∧ k ∉ a.ia) (hdqb : ∀ k ∈ b.dq, 1 ≤ k ∧ k ≤ b.n ∧ k ∉ b.ia)
+    (HA : ∀ e ∈ EA, ∀ k ∈ targets11 (pub11 snapA a) a.id e,
+      k ∈ b.dq ∨ ∃ e' ∈ EB, k ∈ targets11 (pub11 snapB b) b.id e')
+    (HB : ∀ e ∈ EB, ∀ k ∈ targets11 (pub11 snapB b) b.id e,
+      k ∈ a.dq ∨ ∃ e' ∈ EA, k ∈ targets11 (pub11 snapA a) a.id e') :
+    ∀ k, k ∈ (EA.foldl (recover11Step snapA) (a, revA)).1.dq ↔
+         k ∈ (EB.foldl (recover11Step snapB) (b, revB)).1.dq := by
+  have hcoreA := (recover11_fold snapA EA a revA hoka hfa hxa).1
+  have hcoreB := (recover11_fold snapB EB b revB hokb hfb hxb).1
+  simp only [core, Prod.mk.injEq] at hcoreA hcoreB
+  intro k
+  rw [hcoreA.2.2.2, hcoreB.2.2.2]
+  exact dq_agree_generic' a b EA EB _ _ hn hia hdqa hdqb HA HB
+    (fun k hk => Or.inl ((hdq k).1 hk)) (fun k hk => Or.inl ((hdq k).2 hk)) k
+
+/-- for a third-party revealer and a third-party misbehaved member the decision is a function of
+    the public data only -/
+theorem recoverDecision_public (P : Pub11) (e : Nat × Nat × Nat) (s1 s2 : Nat)
+    (h1 : s1 ≠ e.2.1) (h2 : s2 ≠ e.2.1) : recoverDecision P s1 e = recoverDecision P s2 e := by
+  unfold recoverDecision
+  simp [h1, h2]
+
 end KeepVerif.C01
